@@ -297,7 +297,7 @@ def check_real_domains(case, rec):
 def search_real_domains(ctx):
     from props import c02
 
-    ctx.given(c02.l1_case().map(lambda c: dict(c, mode="inside", cap=None, cont=False)), ctx.n(4000, 200_000))
+    ctx.given(c02.l1_case().map(lambda c: dict(c, mode="inside", cap=None, cont=False)), ctx.n(4000, 100_000))
 
 
 # ------------------------------------------------------------------------------------------ height is a root (real GHE)
@@ -363,11 +363,11 @@ def check_design_root(case, rec):
 
 
 def search_root(ctx):
-    ctx.given(build.ghe_case(months=st.sampled_from([12, 60, 240]), max_n=200), ctx.n(160, 3000), shrink=ctx.tier != "quick")
+    ctx.given(build.ghe_case(months=st.sampled_from([12, 60, 240]), max_n=200), ctx.n(160, 1500), shrink=ctx.tier != "quick")
 
 
 def search_design_root(ctx):
-    gs.run_stratified(ctx, ctx.total(48, 800), outcomes=["inside"])
+    gs.run_stratified(ctx, ctx.total(48, 400), outcomes=["inside"])
 
 
 SUBS = [
